@@ -130,9 +130,13 @@ func (c *Collection) writeState(dst io.Writer) (int64, error) {
 		return writer.Offset(), err
 	}
 
-	// Load the number of columns and the max index
+	// Load the number of columns and the max index. The registry is loaded once, so that
+	// a column, index or trigger created or dropped while the snapshot is being written
+	// cannot make a chunk carry another number of buffers than the header announces.
 	chunks := c.chunks()
-	columns := uint64(c.cols.Count()) + 1 // extra 'insert' column
+	schema := makeColumns(0)
+	schema.cols.Store(c.cols.cols.Load())
+	columns := uint64(schema.Count()) + 1 // extra 'insert' column
 
 	// Write the number of columns
 	if err := writer.WriteUvarint(columns); err != nil {
@@ -160,7 +164,7 @@ func (c *Collection) writeState(dst io.Writer) (int64, error) {
 			}
 
 			// Snapshot each column and write the buffer
-			return c.cols.RangeUntil(func(column *column) error {
+			return schema.RangeUntil(func(column *column) error {
 				if !column.Snapshot(chunk, buffer) {
 					return nil // Skip indexes
 				}
